@@ -39,4 +39,8 @@ structure DropInfo where
   /-- the wipe is compiled in exactly under `feature = "zeroize"` -/
   cfgZeroize : Bool
 
+/-- `TABLE[i]` of a regenerated constant table (`Gen/Tables.lean`, flattened row-major), as a `w`-bit value.  An
+out-of-range read gives 0; the theorems that tie a generated function to its model show the index is in range. -/
+def tblAt (t : Array Nat) (i : Nat) (w : Nat) : BitVec w := BitVec.ofNat w (t.getD i 0)
+
 end BC.Gen
